@@ -210,6 +210,27 @@ def run(tier, seed):
                      "interface X\n ip access-group", "ip access-list extended A\n\tpermit ip any any\n  permit ip any any\n permit ip any any"]:
             for plat in ("ios", "nxos", "asa"):
                 add(cls, plat, text, "degenerate")
+    # (v) repetition: long digit runs, very many leading numbers, one token repeated very often - inputs on which a scanner that
+    # backtracks or recurses per token does not come back (or dies of its own depth)
+    heads = {"ios": "ip access-list extended X\n ", "nxos": "ip access-list X\n "}
+    for _ in range(120 if tier == "quick" else 2500):
+        plat = rng.choice(["ios", "nxos"])
+        digits = "".join(rng.choice("0123456789") for _k in range(rng.choice([20, 28, 33, 39, 48, 64, 120])))
+        numbers = " ".join(str(rng.randint(1, 99999)) for _k in range(rng.choice([12, 40, 300, 1200, 4000])))
+        rep = (rng.choice(["permit", "remark", "eq", "host", "any", "10", "0", "1.", "255.", "-", "log", "object-group", " ", "\t"]) + rng.choice(["", " "])) \
+            * rng.choice([30, 200, 1500])
+        lead = rng.choice([digits, numbers, digits + " " + digits, rep, digits[:30] + " " * 40 + digits[:30]])
+        tail = rng.choice(["", " ", " permit ip any any", " remark x", " host 10.0.0.1", " 10.0.0.0/24", " 10.0.0.0 0.0.0.255", " any any permit ip",
+                           " eq 80", "permit ip any any"])
+        text = lead + tail
+        if rng.random() < 0.3:
+            text = "permit tcp any " + rng.choice(["eq ", "range ", "neq ", ""]) + lead + rng.choice(["", " any", " log"])
+        cls = rng.choice(["Ace", "Remark", "AceGroup", "AceGroup", "Acl", "Acl", "aces", "aces", "acls", "Address", "Port", "Option", "Wildcard", "AddrGroup", "Protocol"])
+        if cls == "Acl":
+            text = heads[plat] + text + "\n permit ip any any"
+        elif cls == "acls":
+            text = heads[plat] + text + "\n permit ip any any\ninterface X\n ip access-group X in"
+        add(cls, plat, text, "repetition")
     ev_lists = core.pmap_guarded(exec_job, jobs, per_item_timeout=60,
                                  on_timeout=lambda j: [dict(tid=j["tid"], i=0, act="Call", cls=j["cls"], outcome="Timeout", re="ok")])
     events = [e for evs in ev_lists for e in evs]
@@ -235,7 +256,9 @@ def run(tier, seed):
              "enumerates the index sequences), random soups of 4..9 tokens over a 40-token vocabulary incl. tabs, non-ASCII "
              "and over-long tokens, valid ACE lines truncated / with two tokens swapped / a token duplicated / replaced, "
              "multi-line ACLs of such lines, whole configurations with tabs, decreasing and irregular indents, an indented "
-             "first line, comment lines, and empty / whitespace-only inputs for every class; distinct = distinct (class, "
+             "first line, comment lines, empty / whitespace-only inputs for every class, and repetition inputs (digit runs of "
+             "20..120 digits, 12..4000 leading numbers, one token repeated 30..1500 times, alone or in front of / inside an entry, "
+             "as a line, an ACL body or a configuration); distinct = distinct (class, "
              "platform, text); every case is non-trivial",
         samples=[dict(job=jobs[i], events=ev_lists[i]) for i in (10, len(jobs) // 2, len(jobs) - 1)],
         model_checking=mcs, trace_validation=vstats, exhaustive=False,
